@@ -6,6 +6,9 @@ import Revm.Proofs.EvmLinkHost
 import Revm.Props.C34
 import Revm.Proofs.EvmLinkStatic4
 import Revm.Proofs.EvmLinkGasInv4
+import Revm.Proofs.EvmLinkSame
+import Revm.Proofs.EvmLinkEther9
+import Revm.Proofs.EvmLinkStatic6
 /-! C01Link — the whole-transaction model `Revm.Model.Evm.transact` (C01) SATISFIES the component properties.
 
 `Evm.transact` (EvmTx / EvmFrame / EvmLoop / EvmHost) was written independently of the component models that carry the
@@ -18,11 +21,12 @@ Translations (`Proofs/EvmLink*.lean`): `tvCfg / tvBlock / tvTx / senderOf` (the 
 reads them), `gasEnv / frameRes / toIR` (the environment and the first frame's result as C09 reads them).
 
 Sections: 1 validation (C02) · 2 gas and fees (C09) · 3 frame depth (C07) · 4 the `Host` as a journal history, cold /
-warm (C34) · 5 static mode (C10).
+warm (C34) · 5 static mode (C10) · 6 ether conservation (C08).
 
 What is hypothesised and not proved here: `loadSender … = .ok …` (the journal can load the sender: no `unwrap` panic in
 the journal model, the code store knows the sender's code hash); for C34 the history `lockRun … = some l` leading to the
-world's journal; for the static frame theorem see `FullStatement_static_frame_state_equal`.
+world's journal. The static frame statement for whole-EVM runs (`FullStatement_static_frame_state_equal`) is proved:
+`static_frame_state_equal`.
 The frame machine's guarantee (`FrameAccounting`: the first frame gives back at most `gas_limit − initial_gas`, the
 visible hypothesis of C09 and of C01 `transact_gas_bounds`) IS proved here, through `Evm.runLoop`
 (`evm_frame_accounting`), so the gas and fee corollaries carry no such hypothesis. -/
@@ -396,6 +400,29 @@ theorem transact_beneficiary_gets (fuel : Nat) (w w' : World) (e : Evm.Env) (spe
   obtain ⟨w1, accV, code, ig, fg, k, res, w3, hl, hff, hrest⟩ := transact_payments fuel w w' e spec r h hL hfa
   exact ⟨w1, accV, code, hl, fun hW => (hrest hW).2.2.2.2⟩
 
+/-- COROLLARY (C09 `sender_is_beneficiary` on the RESULT of `Evm.transact`): when the sender is the block's
+beneficiary, `reward_beneficiary` loads the very account `reimburse_caller` has just written: the account ends at what
+the execution left on it, plus `(gas_limit · eff + blob_fee) − (eff · gas_used + blob_fee)`, plus
+`(eff − base fee) · gas_used` (both `saturating_add`), and the reward is at most the gas fee paid -/
+theorem transact_sender_is_beneficiary (fuel : Nat) (w w' : World) (e : Evm.Env) (spec : Nat) (r : TxResult)
+    (h : Evm.transact fuel w e spec = .ok (.executed r, w')) (hL : e.tx.gasLimit < U64)
+    (heq : e.tx.caller = e.block.coinbase) :
+    ∃ (w1 : World) (accV : Journal.Acct) (code : List Nat) (ig fg k : Nat) (res : Interp.ChildResult) (w3 : World),
+      loadSender w e.tx.caller = .ok (w1, accV, code) ∧
+      FirstFrameResult fuel w e spec ig fg k res w3 ∧
+      (accV.info.balance < W →
+        tipPrice e spec * r.gasUsed ≤ effPrice e spec * r.gasUsed ∧
+        ∃ (wx : World) (c : Bool) (accX accF : Journal.Acct),
+          w3.loadAccount e.tx.caller = .ok (wx, c) ∧ wx.acct e.tx.caller = .ok accX ∧
+          w'.js.state e.tx.caller = some accF ∧
+          accF.info.balance = U256.saturatingAdd (U256.saturatingAdd accX.info.balance
+            (e.tx.gasLimit * effPrice e spec + blobFeeOf e spec - (effPrice e spec * r.gasUsed + blobFeeOf e spec)))
+            (tipPrice e spec * r.gasUsed)) :=
+  Proofs.EvmLink.transact_sender_is_beneficiary fuel w w' e spec r h hL heq
+
+example : ({ sampleEnv with block := { sampleEnv.block with coinbase := 0xaa } } : Evm.Env).tx.caller =
+    ({ sampleEnv with block := { sampleEnv.block with coinbase := 0xaa } } : Evm.Env).block.coinbase := rfl
+
 example : (10 : Nat)^18 < W := by rw [W_val]; decide
 
 /-! ## 3. frame depth (C07)
@@ -644,16 +671,146 @@ theorem evm_static_host_world_equal (he : HostEnv) (w w1 : World) (s : Interp.IS
 
 /-- the full frame statement on the whole-EVM model: in every state `Evm.runLoop` passes while a static frame `f` is
 still open (`StepsAbove`: more than `rest.length` frames on the stack), the world state equals the world state when
-`f` started to run. NOT proved here; `evm_static_step_no_mutation`, `evm_static_inherited` and
-`evm_static_host_world_equal` are its instruction-level and host-level parts. Missing: (1) `is_static` of a frame is
-kept by every handler (`Model.Interp` never writes the field, but C25's `Core` relation does not track it: one lemma
-per primitive); (2) `make_call_frame` / `call_return` as journal histories (`load_account_delegated`, `checkpoint`,
-touch / transfer, `load_code`, `commit` / `revert i` with the index bookkeeping of `JournalAbs.Run.cps`), after which
-C10 `static_frame_state_equal` applies to the whole sub-run. -/
+`f` started to run. PROVED below (`static_frame_state_equal`). -/
 def FullStatement_static_frame_state_equal : Prop :=
   ∀ (cfg : Cfg) (f : JFrame) (rest : List JFrame) (w : World) (n : Next Journal.Checkpoint),
     f.interp.isStatic = true → LoopInv (f :: rest) w → Static.BalOk w.db w.js →
     StepsAbove cfg rest.length (.run (f :: rest) w) n →
     ∀ stack' w', n = .run stack' w' → Static.WorldEq w.db w'.js w.js
+
+/-- LINK (C10 on EvmFrame): `make_call_frame` for a call a static frame hands out (`StaticCall`: static again, value 0
+or a transfer of the frame to itself) keeps C10's invariant `Proofs.Static.Inv` — world state equal to the start, only
+benign journal entries above the start level, every checkpoint handed out since inside that region (`SW`); a frame it
+opens is static, a call frame, and its checkpoint is one of those handed out -/
+theorem evm_static_make_call_frame (db : Journal.Db) (L : Nat) (s0 : Journal.JState) (hb0 : Static.BalOk db s0)
+    (cps : List Journal.Checkpoint) (cfg : Cfg) (w w' : World) (i : Interp.CallInputs) (mem : Memory.SharedMemory)
+    (fr : FrameOrResult Journal.Checkpoint) (h : SW db L s0 cps w) (hsc : StaticCall i)
+    (hmk : makeCallFrame journalOps cfg w i mem = .ok (fr, w')) :
+    ∃ cps', SW db L s0 cps' w' ∧ (∀ c ∈ cps, c ∈ cps') ∧ ∀ f, fr = .frame f →
+      f.checkpoint ∈ cps' ∧ f.interp.isStatic = true ∧ ∃ rs re, f.kind = .call rs re :=
+  sw_makeCallFrame hb0 h hsc hmk
+
+/-- LINK (C10 on EvmFrame): `call_return` of a frame opened inside the static region (commit, or revert to its
+checkpoint) keeps the invariant -/
+theorem evm_static_call_return (db : Journal.Db) (L : Nat) (s0 : Journal.JState) (hb0 : Static.BalOk db s0)
+    (cps : List Journal.Checkpoint) (w w' : World) (cp : Journal.Checkpoint) (r r' : Interp.ChildResult)
+    (h : SW db L s0 cps w) (hcp : cp ∈ cps) (hr : callReturn journalOps w cp r = .ok (r', w')) :
+    SW db L s0 cps w' :=
+  sw_callReturn hb0 h hcp hr
+
+/-- COROLLARY (C10 `static_frame_state_equal` for whole-EVM runs): **the world state inside a static frame never
+changes.** For every configuration, every static frame `f` on any stack, every world with 256-bit balances: in every
+state `run_the_loop` passes while `f` is still open — after any number of instructions of `f` and of the frames it
+calls, at any nesting, including sub-calls that revert or fail with `StateChangeDuringStaticCall` — accounts (balance,
+nonce, code), storage, transient storage and logs are those `f` started on. Parts: `is_static` is kept by every handler
+(`evm_step_gas_accounting`: `Kept`), a static frame only hands out `StaticCall`s and non-mutating host requests
+(`evm_static_step_no_mutation`), host answers / `make_call_frame` / `call_return` keep C10's invariant -/
+theorem static_frame_state_equal : FullStatement_static_frame_state_equal :=
+  fun cfg f rest w n hf _ hbal t => static_frame_state_equal_evm cfg f rest w n hf hbal t
+
+/-- non-vacuity: the static frame of the section's example with nothing below it, zero steps and one step (`SSTORE` in
+static mode halts the frame: the run ends, no state above the frame is left) -/
+example : StepsAbove (sampleEnv.toCfg 17) 0
+    (.run [{ kind := .call 0 0, checkpoint := (Journal.checkpoint sampleWorld.js).2,
+             interp := Interp.IState.init [0x55] [] 100000 true 17 0 0 0 {} Memory.new }] sampleWorld)
+    (.run [{ kind := .call 0 0, checkpoint := (Journal.checkpoint sampleWorld.js).2,
+             interp := Interp.IState.init [0x55] [] 100000 true 17 0 0 0 {} Memory.new }] sampleWorld) :=
+  .refl _
+
+/-! ## 6. ether conservation (C08)
+
+C08 proves conservation for journal histories (`step_inv`: every operation of `Spec.JournalAbs` keeps the ledger
+invariant `BInv`) and for the fee legs around an execution that is only assumed to conserve (`tx_conserves`, hypothesis
+`hexec`). Here the execution is the whole EVM: every `World` / `Host` operation of `EvmHost`, every stage of
+`make_call_frame` / `make_create_frame` / `call_return` / `create_return` and every step of `run_the_loop` is ONE
+operation of `Spec.JournalAbs` on the world's journal (or leaves balances and balance entries alone), so C08's `step_inv`
+applies along any `Evm.runLoop` run (`Proofs.EvmLink.Pres`, `pres_answer`, `pres_steps`); `Evm.deductCaller` and the
+balance part of `Evm.finish` ARE `TxFeeLegs.deductCaller` / `postExecution` (`deductCaller_feeLegs`, `finish_feeLegs`);
+C08's hypotheses `Validated` and `GasOk` follow from C02 validation and from the gas loop invariant. -/
+
+open Revm.Spec.Ether in
+/-- LINK: the debit and the two credits of the whole-EVM model are the fee legs of C08, on the world's journal -/
+theorem evm_fee_legs_eq_txfeelegs (e : Evm.Env) (spec fg r7 : Nat) (isCreate : Bool) (res : Interp.ChildResult)
+    (w w' w3 w4 : World) (r : TxResult) :
+    (Evm.deductCaller e spec w = .ok w' →
+      TxFeeLegs.deductCaller w.db w.js spec (feeEnv e) = some w'.js ∧ w'.db = w.db) ∧
+    (Evm.finish e spec fg r7 isCreate res w3 = .ok (r, w4) →
+      TxFeeLegs.postExecution w3.db w3.js spec (feeEnv e) true (Evm.finalGas e spec fg r7 res).remaining
+        (Gas.spent (Evm.finalGas e spec fg r7 res)) (Gas.i64AsU64 (Evm.finalGas e spec fg r7 res).refunded)
+        = some w4.js ∧ w4.db = w3.db) :=
+  ⟨deductCaller_feeLegs, finish_feeLegs⟩
+
+open Revm.Spec.Ether Revm.Proofs.Ether in
+/-- LINK (C08 `step_inv` along the interpreter loop, no fuel in the statement): along ANY run of `run_the_loop`, if the
+accounts present at the end lie in the duplicate-free list `L`, the ledger invariant of C08 — the balances over `L`
+plus what the journal's self-destruct entries burnt is the base sum — is carried from the start to the end, and the
+backing store's accounts are not written -/
+theorem evm_loop_conserves_ether (L : List Nat) (B : Nat → Nat) (hn : L.Nodup) (hB : sumOver L B < W) (cfg : Cfg)
+    (n m : Next Journal.Checkpoint) (t : Steps cfg n m) (hK : KeysIn L (nextWorld m))
+    (h : BInv L B (absB (nextWorld n).db (nextWorld n).js)) :
+    BInv L B (absB (nextWorld m).db (nextWorld m).js) ∧ (nextWorld m).db.basic = (nextWorld n).db.basic :=
+  ⟨(pres_steps hn hB t).ei hK h, (pres_steps hn hB t).dbb⟩
+
+open Revm.Spec.Ether Revm.Proofs.Ether in
+/-- COROLLARY (C08 `tx_conserves` on `Evm.transact`): **the whole EVM conserves ether.** For every executed
+transaction, from a journal without balance entries (`JB w.js = []`: the fresh journal `Evm::transact` starts on), with
+every balance a 256-bit word, `L` a duplicate-free address list that contains every account present in the final
+journal state, and the sum of the initial balances over `L` below 2^256 (C08's hypothesis):
+
+  Σ_L balances(after) + (effective price − beneficiary's price) · gas_used + blob fee + burnt by self-destructs
+    = Σ_L balances(before).
+
+`burnt w'.js` is the ether that SELFDESTRUCTs naming themselves as target destroyed (C08 `burnt`); before London
+`burntPerGas` is 0. `L` is any list covering the accounts present in the final journal state; `World.addrs` of the
+final world is such a list (`transact_conserves_ether_addrs`). -/
+theorem transact_conserves_ether (fuel : Nat) (w w' : World) (e : Evm.Env) (spec : Nat) (r : TxResult) (L : List Nat)
+    (h : Evm.transact fuel w e spec = .ok (.executed r, w'))
+    (hL : e.tx.gasLimit < U64) (hn : L.Nodup) (hK : KeysIn L w')
+    (hok : BalOk w.db w.js) (hj : JB w.js = []) (hSum : total L w.db w.js < W) :
+    total L w'.db w'.js + burntPerGas (GasCalc.canon spec) (feeEnv e) * r.gasUsed
+      + dataFee (GasCalc.canon spec) (feeEnv e) + burnt w'.js = total L w.db w.js :=
+  transact_conserves fuel w w' e spec r L h hL hn hK hok hj hSum
+
+/-- LINK: **`World.addrs` covers the journal**: every `World` / `Host` operation notes the accounts it may add to the
+journal's state map (each journal operation adds at most the accounts it names: `Proofs.EvmLink.Keys`), so if every
+account present before `Evm.transact` is in `World.addrs`, every account present after it is -/
+theorem evm_addrs_cover_journal (fuel : Nat) (w w' : World) (e : Evm.Env) (spec : Nat) (r : TxResult)
+    (h : Evm.transact fuel w e spec = .ok (.executed r, w')) (hN : Noted w) : Noted w' :=
+  transact_noted fuel w w' e spec r h hN
+
+open Revm.Spec.Ether Revm.Proofs.Ether in
+/-- COROLLARY: **ether conservation over the address list the model maintains** — `L` = `World.addrs` of the final
+world without repetitions (`dedup`); on a world whose journal holds only noted accounts (a fresh journal holds none) -/
+theorem transact_conserves_ether_addrs (fuel : Nat) (w w' : World) (e : Evm.Env) (spec : Nat) (r : TxResult)
+    (h : Evm.transact fuel w e spec = .ok (.executed r, w'))
+    (hL : e.tx.gasLimit < U64) (hN : Noted w)
+    (hok : BalOk w.db w.js) (hj : JB w.js = []) (hSum : total (dedup w'.addrs) w.db w.js < W) :
+    total (dedup w'.addrs) w'.db w'.js + burntPerGas (GasCalc.canon spec) (feeEnv e) * r.gasUsed
+      + dataFee (GasCalc.canon spec) (feeEnv e) + burnt w'.js = total (dedup w'.addrs) w.db w.js :=
+  transact_conserves_addrs fuel w w' e spec r h hL hN hok hj hSum
+
+example : Noted sampleWorld := fun _ ha => absurd rfl ha
+
+open Revm.Spec.Ether in
+/-- the hypotheses on the initial world hold for the sample world (fresh journal), and the ledger equation of the
+sample transfer (21000 gas at price 10 with base fee 7: 147000 wei burnt) evaluates -/
+example : JB sampleWorld.js = [] := rfl
+
+open Revm.Spec.Ether in
+/-- the ledger equation on a completed run, as a check -/
+def ledgerCheck (fuel : Nat) (w : World) (e : Evm.Env) (spec : Nat) (L : List Nat) (perGasBurn : Nat) : Bool :=
+  match Evm.transact fuel w e spec with
+  | .ok (.executed r, w') =>
+    decide (total L w'.db w'.js + burntPerGas spec (feeEnv e) * r.gasUsed + dataFee spec (feeEnv e) + burnt w'.js
+        = total L w.db w.js) &&
+      decide (burntPerGas spec (feeEnv e) * r.gasUsed = perGasBurn)
+  | _ => false
+
+example : ledgerCheck 10 sampleWorld sampleEnv 17 [0xaa, 0xbb, 0] 147000 = true := by decide +kernel
+
+/-- the address list of the sample run: sender, recipient, beneficiary -/
+example : (match Evm.transact 10 sampleWorld sampleEnv 17 with
+    | .ok (_, w') => dedup w'.addrs
+    | _ => []) = [0, 0xbb, 0xaa] := by decide +kernel
 
 end Revm.Props.C01Link
